@@ -239,6 +239,13 @@ def findNDoRule (p : PassT) (c : Ctx) (slot : Nat) : Except String (Ctx × Optio
         let (c, so) := adjustSlot c ret slotOut
         .ok (c, so, .finished)
 
+/-- `smap.highwater(s->next())` (which also clears `highpassed`) -/
+def _root_.GrVerif.Seg.Ctx.restartAt (c : Ctx) (s : Nat) : Ctx := { c with highwater := (c.seg.get s).next, highpassed := false }
+
+/-- `Silf::runGraphite`: a fresh slot map and machine for a run of passes -/
+def _root_.GrVerif.Seg.Ctx.beginRange (c : Ctx) (limit : Int) : Ctx :=
+  { c with maxSize := limit, highwater := none, highpassed := false, status := .finished }
+
 /-- the rule loop of `Pass::runGraphite`; returns the final context (`none` = the machine stopped with a status other than
 `finished`) and the number of iterations of the do-loop -/
 def ruleLoop (p : PassT) : Nat → Ctx → Nat → Int → Nat → Except String (Option Ctx × Nat)
@@ -256,7 +263,7 @@ def ruleLoop (p : PassT) : Nat → Ctx → Nat → Int → Nat → Except String
         if hit ∨ lc' = 0 then
           let s2 : Option Nat := if lc' = 0 then c.highwater else some s1      -- `if (!lc) s = highwater;`
           match s2 with
-          | some s3 => ruleLoop p f { c with highwater := (c.seg.get s3).next, highpassed := false } s3 p.maxLoop (it + 1)
+          | some s3 => ruleLoop p f (c.restartAt s3) s3 p.maxLoop (it + 1)
           | none => .ok (some c, it + 1)
         else ruleLoop p f c s1 lc' (it + 1)
 
@@ -271,7 +278,7 @@ def runPass (p : PassT) (c : Ctx) (fuel : Nat) : Except String (Option Ctx) :=
   | none => .ok (some c)
   | some s0 =>
     if p.rules.size = 0 then .ok (some c) else
-    let c := { c with highwater := (c.seg.get s0).next, highpassed := false }
+    let c := c.restartAt s0
     let bound := (if p.maxLoop = 0 then 1 else p.maxLoop) * (c.seg.numGlyphs.toNat + c.maxSize.toNat + 2)
     match ruleLoop p fuel c s0 p.maxLoop 0 with
     | .error w => .error w
@@ -282,7 +289,7 @@ def runPass (p : PassT) (c : Ctx) (fuel : Nat) : Except String (Option Ctx) :=
 MAX_SEG_GROWTH_FACTOR`; after each pass the segment may not have outgrown that limit -/
 def runRange (passes : Array PassT) (c : Ctx) (lo hi : Nat) (fuel : Nat) : Except String (Option Ctx) :=
   let limit : Int := c.seg.numGlyphs * 64
-  let c := { c with maxSize := limit, highwater := none, highpassed := false, status := .finished }
+  let c := c.beginRange limit
   (List.range (hi - lo)).foldl (fun (acc : Except String (Option Ctx)) k =>
     match acc with
     | .ok (some c) =>
@@ -299,29 +306,39 @@ structure Font where
   gadv : Array Int                 -- advance widths (hmtx)
   cmap : Nat → Nat
 
+/-- `Segment::read_text`: one slot per character, appended in order -/
+def initSeg (font : Font) (text : List Nat) : Seg :=
+  let n := text.length
+  text.zipIdx.foldl (fun s (x : Nat × Nat) => s.appendSlot x.2 (font.cmap x.1) 64 (font.gadv.getD (font.cmap x.1) 0))
+    { numGlyphs := n, numChars := n, slots := Array.replicate (n + 10) {}, free := List.range (n + 10), bufSize := Nat.log2 n + 1 }
+
+def initCtx (font : Font) (text : List Nat) : Ctx :=
+  { seg := initSeg font text, smap := Array.replicate (MAX_SLOTS + 2) none, size := 0, context := 0, maxSize := (text.length * 64 : Nat),
+    dir := 0, map := 0, is := none, classes := font.classes, gattr := font.gattr, gadv := font.gadv }
+
+/-- `Segment::associateChars` on the stream (and the renumbering of the slots' `index`); `none` = a char-info access out of range -/
+def reassoc (seg : Seg) (n : Nat) : Option (Seg × List Assoc.CI) :=
+  let stream := ahead seg (2 * seg.slots.size + 8) seg.first
+  let pairs := stream.map fun i => ((seg.get i).before, (seg.get i).after)
+  let r := Assoc.associateChars n pairs
+  if r.2.2 then none else
+  let seg' := (stream.zip r.1).foldl (fun s (x : Nat × Int × Int) => s.upd x.1 fun sl => (sl.setBefore x.2.1).setAfter x.2.2) seg
+  let seg' := stream.zipIdx.foldl (fun s (x : Nat × Nat) => s.upd x.1 fun sl => sl.setIndex x.2) seg'
+  some (seg', r.2.1)
+
 /-- the whole pipeline for a left-to-right request: text → slots → substitution passes → `associateChars` → positioning passes -/
 def shape (font : Font) (text : List Nat) (fuel : Nat) : Except String (Option (Ctx × List Assoc.CI)) :=
-  let n := text.length
-  if n = 0 then .ok (some ({ seg := {}, smap := #[], size := 0, context := 0, maxSize := 0, map := 0, is := none }, [])) else
-  let seg0 : Seg := { numGlyphs := n, numChars := n, slots := Array.replicate (n + 10) {}, free := List.range (n + 10),
-                      bufSize := Nat.log2 n + 1 }
-  let seg := text.zipIdx.foldl (fun s (ch, i) => s.appendSlot i (font.cmap ch) 64 (font.gadv.getD (font.cmap ch) 0)) seg0
-  let ctx0 : Ctx := { seg := seg, smap := Array.replicate (MAX_SLOTS + 2) none, size := 0, context := 0, maxSize := (n * 64 : Nat),
-                      dir := 0, map := 0, is := none, classes := font.classes, gattr := font.gattr, gadv := font.gadv }
-  match runRange font.passes ctx0 0 font.ipos fuel with
+  if text.length = 0 then .ok (some ({ seg := {}, smap := #[], size := 0, context := 0, maxSize := 0, map := 0, is := none }, [])) else
+  match runRange font.passes (initCtx font text) 0 font.ipos fuel with
   | .error w => .error w
   | .ok none => .ok none
   | .ok (some c) =>
-    -- associateChars on the stream
-    let stream := ahead c.seg (2 * c.seg.slots.size + 8) c.seg.first
-    let pairs := stream.map fun i => ((c.seg.get i).before, (c.seg.get i).after)
-    let r := Assoc.associateChars n pairs
-    if r.2.2 then .error "associateChars: char-info access out of range" else
-    let seg' := (stream.zip r.1).foldl (fun s (i, ba) => s.upd i fun sl => (sl.setBefore ba.1).setAfter ba.2) c.seg
-    let seg' := stream.zipIdx.foldl (fun s (i, k) => s.upd i fun sl => { sl with index := k }) seg'
-    match runRange font.passes (c.withSeg seg') font.ipos font.passes.size fuel with
-    | .error w => .error w
-    | .ok none => .ok none
-    | .ok (some c) => .ok (some (c, r.2.1))
+    match reassoc c.seg text.length with
+    | none => .error "associateChars: char-info access out of range"
+    | some (seg', ci) =>
+      match runRange font.passes (c.withSeg seg') font.ipos font.passes.size fuel with
+      | .error w => .error w
+      | .ok none => .ok none
+      | .ok (some c) => .ok (some (c, ci))
 
 end GrVerif.Pass
